@@ -332,6 +332,7 @@ pub struct Exec {
 
 thread_local! {
     static LAST_PANIC: RefCell<Option<String>> = const { RefCell::new(None) };
+    static GUARD_DEPTH: Cell<u32> = const { Cell::new(0) };
 }
 
 pub fn install_panic_hook() {
@@ -347,6 +348,10 @@ pub fn install_panic_hook() {
                 "<non-string panic>".to_string()
             };
             let loc = info.location().map(|l| format!("{}:{}", l.file(), l.line())).unwrap_or_default();
+            if GUARD_DEPTH.with(Cell::get) == 0 {
+                // not inside a guarded library call: a harness bug, report loudly
+                eprintln!("MACHINERY PANIC: {msg} @ {loc}");
+            }
             LAST_PANIC.with(|p| *p.borrow_mut() = Some(format!("{msg} @ {loc}")));
         }));
     });
@@ -357,7 +362,10 @@ pub fn take_panic() -> String {
 }
 
 pub fn guarded<R>(f: impl FnOnce() -> R) -> Result<R, String> {
-    match catch_unwind(AssertUnwindSafe(f)) {
+    GUARD_DEPTH.with(|d| d.set(d.get() + 1));
+    let r = catch_unwind(AssertUnwindSafe(f));
+    GUARD_DEPTH.with(|d| d.set(d.get() - 1));
+    match r {
         Ok(r) => Ok(r),
         Err(_) => Err(take_panic()),
     }
